@@ -53,6 +53,18 @@ def try_replay(rec):
     rp = rec['finding'].get('replay')
     if not rp or rp.get('kind') == 'none':
         return dict(status='no_native_route')
+    first = _try_one(rp)
+    if first.get('status') == 'reproduced':
+        return first
+    # further demonstrations of the same finding (a counterexample class may need a different program to show natively)
+    for alt in rp.get('alternatives', []):
+        v = _try_one(alt)
+        if v.get('status') == 'reproduced':
+            return v
+    return first
+
+
+def _try_one(rp):
     if rp['kind'] == 'lay':
         out = run_lay(rp['source'], rp.get('files'), valgrind=bool(rp.get('valgrind')))
         if out is None:
